@@ -381,11 +381,17 @@ class MessageManager(interfaces.TokenInterface, interfaces.MessageManager):
                 self.log.warning(
                     "New request came in while old request not"
                     " ACKed yet. Possible mismatch between EMPTY_ACK_DELAY"
-                    " and EXCHANGE_LIFETIME. Cancelling ACK to ward off any"
-                    " further confusion."
+                    " and EXCHANGE_LIFETIME. Sending the pending ACK now to"
+                    " ward off any further confusion."
                 )
                 mid, old_handle = self._piggyback_opportunities.pop(key)
                 old_handle.cancel()
+                # The earlier request was received and still needs its
+                # acknowledgement; with its timer cancelled, nothing else
+                # would ever send it.
+                self._send_empty_ack(
+                    request.remote, mid, "Request superseded on the same token"
+                )
             self._piggyback_opportunities[key] = (request.mid, handle)
 
         self.token_manager.process_request(request)
